@@ -39,7 +39,9 @@ CLAIMS['C18'] = dict(
 
 CLAIMS['C09'] = dict(
    technique='Lean 4 proof (decision logic + loop invariant by induction + index arithmetic) + correspondence + direct search; one recorded finding',
-   text='C09_due_iff/C09_schedule (sweep iff ntemps>1 and iteration % s = 0), C09_whole_state_permuted (level t afterwards holds the complete St '
+   text='C09_due_iff/C09_schedule (sweep iff ntemps>1 and iteration % s = 0), C09_swap_index_is_permutation (every ladder, every decision path), '
+        'C09_states_conserved / C09_iteration_conserves_states (the multiset of complete states is unchanged by every iteration, end to end from step), '
+        'C09_whole_state_permuted (level t afterwards holds the complete St '
         'value of level swap_index[t]; acceptance record and earlier rows untouched), C09_reset_exactly_swapped, '
         'C09_colder_moves_up_at_most_one (loop invariant over every ladder length and decision path), C09_rows_stored_in_order (row index = '
         'number of earlier sweeps since the clear, for every swap interval and clear placement), C09_rows_view_partial / C09_rows_view_bounds and '
@@ -52,14 +54,14 @@ CLAIMS['C06'] = dict(
    text='C06_partition_and_clear_transparent: for EVERY sequence of iterations, clears and run-boundary scratch growth, the state reached is '
         'PSfx-related to the state reached by the bare iterations (same iteration, current position/stats/blob, proposed point, proposal '
         'counters and adaptive events, ladder; retained records are a suffix). Corollaries C06_counters_and_current, '
-        'C06_retained_history_is_suffix, C06_run_split. Tied by the plumbing correspondence; real samplers with all compositions of small n and '
+        'C06_retained_history_is_suffix, C06_run_split, C06_clear_leaves(_pt) (after a clear: nothing retained, iteration kept, start = the point the chain stands on). Tied by the plumbing correspondence; real samplers with all compositions of small n and '
         'all clear subsets are compared bit for bit with one uninterrupted run.',
    design='3/C06', note=TB + '; known finding (same root cause as C09/F6) listed in known_findings.txt')
 CLAIMS['C17'] = dict(
    technique='Lean 4 proof (invariant by induction over operation sequences; order lemma over Q with Mathlib) + correspondence + direct search',
    text='C17_sorted_in_range / C17_out_of_range_rejected (setter: permutation, sorted coldest to hottest, in [0,1], rejects otherwise), '
         'C17_coherent (levels.map beta = ladder array in every reachable state: steps, sweeps, annealer calls, clears, growth, loads), '
-        'C17_step_uses_level_beta, C17_endpoints_fixed, C17_order_preserved (annealer recursion with positive exp(S) keeps the ladder strictly '
+        'C17_loaded_ladder_is_saved (set_state: levels and ladder follow the state), C17_step_uses_level_beta, C17_endpoints_fixed, C17_order_preserved (annealer recursion with positive exp(S) keeps the ladder strictly '
         'decreasing). Tied by the PT plumbing correspondence with dynamic ladders (ladder array and every level beta dumped; recorded acceptance '
         'ratios recomputed with the level beta) and driver ops setbetas/anneal against the real setter/annealer.',
    design='3/C17', note=TB)
@@ -68,7 +70,8 @@ CLAIMS['C05'] = dict(
    technique='Lean 4 proof (bisimulation: simulation relation established by load-of-save and preserved by every continuation) + generated-table obligation + correspondence + every-cut resume search',
    text='C05_resume_level: a freshly constructed chain that loads the saved state is Sfx-related to the source (equal on every field a future '
         'step reads) given state-complete, well-formed proposals; C05_resume_bisim: for EVERY continuation (iterations, clears, run boundaries) '
-        'the resumed PT/plain chain stays PSfx-related to the uninterrupted one and saves the same state; C05_resume_of_resume; '
+        'the resumed PT/plain chain stays PSfx-related to the uninterrupted one and saves the same state; C05_resume_reachable: the hypotheses of '
+        'the bisimulation hold in EVERY state reachable from construction (guarded lifting over operation sequences), so every reachable state resumes exactly; C05_resume_of_resume; '
         'C05_related_save_equal; C05_proposal_roundtrip; C05_incomplete_state_counterexample shows why completeness is needed. '
         'EpsieProps/C05Table.lean re-proves StateComplete by decide on tables measured on the live classes each run. The model has no generator: '
         'the bit-generator state travels as an opaque value inside the saved state (numpy trusted); bit-exactness of recomputed floats is '
@@ -151,7 +154,7 @@ CLAIMS['C04'] = dict(
    design='3/C04', note=TB + '; numpy SeedSequence.spawn independence trusted')
 CLAIMS['C07'] = dict(
    technique='Lean 4 proof over a pool model (serial / copying / permuted / chunked maps over a framed system) + table obligations by decide on the measured cross-chain object graph + correspondence + real pools',
-   text='C07_pool_irrelevant(_runs), C07_named_pools_valid, C07_chain_local, C07_built_sampler_shares_only_the_annealer, C07_built_sampler_pool_irrelevant, '
+   text='C07_pool_irrelevant(_runs), C07_named_pools_valid, C07_chain_local, C07_generated_no_shared_class_state (decide over the regenerated scan of mutated class-level state), C07_worker_class_state_irrelevant, C07_pinned_counterexample_class_state, C07_built_sampler_shares_only_the_annealer, C07_built_sampler_pool_irrelevant, '
         'pinned counterexamples, and decide obligations that the measured set of mutable objects reachable from two chains is what the model predicts '
         '(empty on the repaired tree). Partial: the theorem reduces independence to the absence of cross-chain mutable state, which is measured on the '
         'real objects each run; OS scheduling and pickling fidelity are exercised with multiprocessing pools (1..16 workers), deep-copying and '
@@ -160,7 +163,7 @@ CLAIMS['C07'] = dict(
 
 CLAIMS['C12'] = dict(
    technique='Lean 4 proof (range/refusal invariants of fuel-bounded draw maps over Q for every fuel and draw stream; trigonometric/exp-log range lemmas over R with Mathlib) + scripted correspondence + grid search incl. extreme quantiles',
-   text='32 theorems over EpsieModel/Domain.lean: C12_bounded_in_bounds(_discrete), C12_bounded_eigen_tolerance(_draws,_value), C12_outside_refuses(_discrete,_eigen), '
+   text='38 theorems over EpsieModel/Domain.lean (incl. C12_rejection_streak_bounded/_bounded_discrete/_discrete/_angular/_eigen and C12_rejection_all_rejected_starves: a rejection loop returns the first conforming draw after a streak of any length and never a rejected value): C12_bounded_in_bounds(_discrete), C12_bounded_eigen_tolerance(_draws,_value), C12_outside_refuses(_discrete,_eigen), '
         'C12_inside_never_refuses, C12_discrete_integer, C12_integer_step_near_draw, C12_nonsuccessive_moves(_jump,_bounded: all draw streams), '
         'C12_angular_range(_real), C12_angular_jump_range_partial, C12_pyMod_cast, C12_vmf_w_range, C12_vmf_formula_agrees, C12_clip_range, '
         'C12_vmf_log1p_arg_partial, C12_rotation_keeps_unit_sphere(_partial), C12_rotation_maps_pole, C12_spherical_ranges(_model_partial), '
